@@ -19,6 +19,7 @@ import (
 	"net/http"
 	"net/http/httptrace"
 	"os"
+	"runtime"
 	"runtime/debug"
 	"sort"
 	"strconv"
@@ -27,6 +28,7 @@ import (
 	"time"
 
 	"github.com/saucelabs/forwarder"
+	"github.com/saucelabs/forwarder/header"
 	"github.com/saucelabs/forwarder/httplog"
 	"github.com/saucelabs/forwarder/log"
 	fslog "github.com/saucelabs/forwarder/log/slog"
@@ -83,6 +85,8 @@ type ecaseJ struct {
 	Pipeline bool    // the client writes all requests before it reads the first response
 	Handler  bool    // through the http.Handler variant of the proxy (oracle only, the model is of the connection handler)
 	AttachRT bool    // the proxy's RoundTripper is wrapped: replies carrying X-Attach-Body get a body attached (header-only replies with an unexpected body)
+	LogBody   bool     // the proxy logs bodies (--log-http body): the logging middleware must not alter the messages
+	RespRules []string // the proxy's --response-header rules
 	MustComplete bool // nothing in the scenario permits the proxy to close the connection: every exchange must be answered on it
 	Shutdown int     // >0: the proxy (a rig of its own) is told to shut down this many ms after the first request was sent, while the origin still delays its reply
 }
@@ -127,11 +131,18 @@ func (o *originSrv) wire(r *oresp, gz bool) []byte {
 	switch r.Framing {
 	case "cl":
 		fmt.Fprintf(&sb, "Content-Length: %d\r\n\r\n", len(body))
+		if r.Break == "fin" || r.Break == "rst" { // the origin dies after half of the declared length
+			body = body[:len(body)/2]
+		}
 		sb.Write(body)
 	case "chunked":
 		sb.WriteString("Transfer-Encoding: chunked\r\n\r\n")
 		off := 0
-		for _, n := range r.Chunks {
+		chunks := r.Chunks
+		if (r.Break == "fin" || r.Break == "rst") && len(chunks) > 1 {
+			chunks = chunks[:len(chunks)-1] // the origin dies before the last data chunk
+		}
+		for _, n := range chunks {
 			fmt.Fprintf(&sb, "%x\r\n", n)
 			sb.Write(body[off : off+n])
 			sb.WriteString("\r\n")
@@ -139,6 +150,9 @@ func (o *originSrv) wire(r *oresp, gz bool) []byte {
 		}
 		if r.Break == "chunk-size" {
 			sb.WriteString("zz\r\nnot a chunk\r\n")
+			return sb.Bytes()
+		}
+		if r.Break == "fin" || r.Break == "rst" { // the origin dies after the chunks: no last chunk
 			return sb.Bytes()
 		}
 		sb.WriteString("0\r\n")
@@ -229,6 +243,13 @@ func (o *originSrv) serve(c net.Conn) {
 		o.mu.Lock()
 		o.sent[path] = times
 		o.mu.Unlock()
+		if r.Break == "rst" || r.Break == "fin" {
+			time.Sleep(150 * time.Millisecond) // let the proxy read what was sent before the connection dies
+			if tc, ok := c.(*net.TCPConn); ok && r.Break == "rst" {
+				tc.SetLinger(0)
+			}
+			return
+		}
 		if r.Framing == "close" || !r.KeepOpen {
 			return
 		}
@@ -324,7 +345,25 @@ func (a errLogRT) RoundTrip(req *http.Request) (*http.Response, error) {
 	return res, err
 }
 
+// rigOpts selects the proxy configuration a connection runs against.
+type rigOpts struct {
+	Handler bool   // http.Handler variant (TestingHTTPHandler)
+	Attach  bool   // RoundTripper wrapped by attachRT
+	LogBody bool   // --log-http body for the proxy module: the logging middleware reads and restores every body
+	Rules   string // response-header rules (--response-header), joined by "\x00"
+}
+
 func newProxyRig(handler bool, attach ...bool) *proxyRig {
+	o := rigOpts{Handler: handler}
+	if len(attach) > 0 {
+		o.Attach = attach[0]
+	}
+	return newProxyRigOpts(o)
+}
+
+func newProxyRigOpts(o rigOpts) *proxyRig {
+	handler := o.Handler
+	attach := []bool{o.Attach}
 	rig := &proxyRig{snaps: map[string]snapshot{}}
 	cfg := forwarder.DefaultHTTPProxyConfig()
 	cfg.TestingHTTPHandler = handler
@@ -346,6 +385,27 @@ func newProxyRig(handler bool, attach ...bool) *proxyRig {
 		rig.mu.Unlock()
 		return nil
 	})}
+	if o.LogBody {
+		cfg.LogHTTPMode = httplog.Body
+	}
+	if o.Rules != "" {
+		// as command/run configureHeadersModifiers does for --response-header: after the snapshot modifier,
+		// not for CONNECT replies
+		var rules header.Headers
+		for _, rs := range strings.Split(o.Rules, "\x00") {
+			h, err := header.ParseHeader(rs)
+			if err != nil {
+				panic("bad response-header rule " + rs + ": " + err.Error())
+			}
+			rules = append(rules, h)
+		}
+		cfg.ResponseModifiers = append(cfg.ResponseModifiers, forwarder.ResponseModifierFunc(func(res *http.Response) error {
+			if req := res.Request; req != nil && req.Method == http.MethodConnect {
+				return nil
+			}
+			return rules.ModifyResponse(res)
+		}))
+	}
 	tr, err := forwarder.NewHTTPTransport(forwarder.DefaultHTTPTransportConfig())
 	if err != nil {
 		panic(err)
@@ -932,6 +992,32 @@ func corpus() []ecaseJ {
 		{Class: "interim-responses:http10-client", Exchs: []exchJ{
 			{h10, oresp{Interim: []string{"HTTP/1.1 103 Early Hints\r\nLink: </a>\r\n\r\n"}, Proto: "HTTP/1.1", Code: 200, Reason: "OK", Framing: "cl", Body: "final", HeadCL: -1, KeepOpen: true}},
 			{h10, plain}}},
+		// the origin dies after part of the body: the client must not get a message that looks complete
+		{Class: "origin-dies-mid-body:chunked-fin", Exchs: []exchJ{{get("HTTP/1.1"), plain},
+			{get("HTTP/1.1"), oresp{Proto: "HTTP/1.1", Code: 200, Reason: "OK", Framing: "chunked", Body: "hello world", Chunks: []int{5, 6}, Break: "fin", HeadCL: -1, KeepOpen: true}},
+			{get("HTTP/1.1"), plain}}},
+		{Class: "origin-dies-mid-body:chunked-rst", Exchs: []exchJ{
+			{get("HTTP/1.1"), oresp{Proto: "HTTP/1.1", Code: 200, Reason: "OK", Framing: "chunked", Body: "hello world", Chunks: []int{5, 6}, Break: "rst", HeadCL: -1, KeepOpen: true}},
+			{get("HTTP/1.1"), plain}}},
+		{Class: "origin-dies-mid-body:content-length-fin", Exchs: []exchJ{
+			{get("HTTP/1.1"), oresp{Proto: "HTTP/1.1", Code: 200, Reason: "OK", Framing: "cl", Body: strings.Repeat("0123456789", 40), Break: "fin", HeadCL: -1, KeepOpen: true}},
+			{get("HTTP/1.1"), plain}}},
+		{Class: "origin-dies-mid-body:content-length-rst", Pipeline: true, Exchs: []exchJ{
+			{get("HTTP/1.1"), oresp{Proto: "HTTP/1.1", Code: 200, Reason: "OK", Framing: "cl", Body: strings.Repeat("0123456789", 40), Break: "rst", HeadCL: -1, KeepOpen: true}},
+			{get("HTTP/1.1"), plain}}},
+		// configured response-header rules (--response-header)
+		{Class: "response-rules:rename-then-prefix-removal", MustComplete: true, RespRules: []string{"%x-trace-id", "-x-trace*"}, Exchs: []exchJ{
+			{get("HTTP/1.1"), oresp{Proto: "HTTP/1.1", Code: 200, Reason: "OK", Fields: []hfield{{"X-Trace-Id", "t1"}, {"X-Trace-Span", "s1"}, {"X-Keep", "k"}}, Framing: "cl", Body: "ok", HeadCL: -1, KeepOpen: true}},
+			{xreq{Method: "HEAD", Proto: "HTTP/1.1"}, oresp{Proto: "HTTP/1.1", Code: 200, Reason: "OK", Fields: []hfield{{"x-trace-id", "t2"}, {"X-Keep", "k"}}, Framing: "none", HeadCL: 3, KeepOpen: true}},
+			{get("HTTP/1.1"), plain}}},
+		{Class: "response-rules:add-empty-remove-prefix-rename", MustComplete: true, RespRules: []string{"X-Added: yes", "Server;", "-Set-Cookie", "-x-powered*", "%etag", "X-A: more"}, Exchs: []exchJ{
+			{get("HTTP/1.1"), oresp{Proto: "HTTP/1.1", Code: 200, Reason: "OK", Fields: []hfield{{"Server", "origin/1"}, {"Set-Cookie", "a=1"}, {"Set-Cookie", "b=2"}, {"X-Powered-By", "p"},
+				{"Etag", "\"x\""}, {"X-A", "1"}, {"X-Keep", "k"}}, Framing: "chunked", Body: "hello", Chunks: []int{5}, HeadCL: -1, KeepOpen: true}},
+			{get("HTTP/1.1"), oresp{Proto: "HTTP/1.1", Code: 304, Reason: "Not Modified", Fields: []hfield{{"Etag", "\"y\""}, {"X-Powered-By", "p"}}, Framing: "none", HeadCL: -1, KeepOpen: true}},
+			{get("HTTP/1.1"), plain}}},
+		{Class: "response-rules:rename-add-rename", MustComplete: true, RespRules: []string{"%x-a", "X-A: more", "%x-a", "-x-b"}, Exchs: []exchJ{
+			{get("HTTP/1.1"), oresp{Proto: "HTTP/1.1", Code: 200, Reason: "OK", Fields: []hfield{{"X-A", "1"}, {"X-A", "2"}, {"X-B", "b"}, {"X-Keep", "k"}}, Framing: "cl", Body: "ok", HeadCL: -1, KeepOpen: true}},
+			{get("HTTP/1.1"), plain}}},
 		{Class: "chunked-with-trailers", MustComplete: true, Exchs: []exchJ{{get("HTTP/1.1"), chTr}, {get("HTTP/1.1"), plain}, {xreq{Method: "HEAD", Proto: "HTTP/1.1"}, plain}, {get("HTTP/1.1"), ch}}},
 	}...)
 }
@@ -952,7 +1038,7 @@ var hopNames = map[string]bool{"connection": true, "keep-alive": true, "proxy-au
 	"content-length": true, "content-encoding": true}
 
 // expected observation at the client, derived from the origin script only
-func expected(x exchJ, sawGzip bool, relax304 bool, handler bool) string {
+func expected(x exchJ, sawGzip bool, relax304 bool, handler bool, hasRules bool) string {
 	o := x.Resp
 	hop := map[string]bool{}
 	if relax304 && o.Code == 304 {
@@ -1030,6 +1116,9 @@ func expected(x exchJ, sawGzip bool, relax304 bool, handler bool) string {
 		anames = append(anames, n)
 	}
 	sort.Strings(anames)
+	if hasRules { // the configured rules change the header set: the rule oracle (x_origin, x_skip) judges the fields
+		fparts = nil
+	}
 	// the reason phrase is the origin's (the http.Handler variant runs on net/http's server, which writes its own)
 	reason := "None"
 	if !handler {
@@ -1039,8 +1128,20 @@ func expected(x exchJ, sawGzip bool, relax304 bool, handler bool) string {
 	if !handler && x.Req.Method == "HEAD" && o.Framing == "none" && o.HeadCL >= 0 && !o.HeadTE {
 		fparts = append(fparts, "("+coqfmt.Str("content-length")+", "+coqfmt.StrList([]string{fmt.Sprint(o.HeadCL)})+")")
 	}
-	return fmt.Sprintf("{| x_code := %d; x_reason := %s; x_fields := %s; x_absent := %s; x_body := %s; x_trailers := %s |}", o.Code, reason,
-		coqfmt.List("(list N * list (list N))", fparts), coqfmt.StrList(anames), cstr(body), coqfmt.List("(list N * list (list N))", tparts))
+	// for the rule oracle: the origin's header as the transport delivers it, and the names that oracle does not judge
+	origin := http.Header{}
+	for _, f := range o.Fields {
+		k := http.CanonicalHeaderKey(f.K)
+		origin[k] = append(origin[k], strings.Trim(f.V, " \t"))
+	}
+	var skip []string
+	for n := range hop {
+		skip = append(skip, n)
+	}
+	sort.Strings(skip)
+	return fmt.Sprintf("{| x_code := %d; x_reason := %s; x_fields := %s; x_absent := %s; x_body := %s; x_trailers := %s; x_origin := %s; x_skip := %s |}", o.Code, reason,
+		coqfmt.List("(list N * list (list N))", fparts), coqfmt.StrList(anames), cstr(body), coqfmt.List("(list N * list (list N))", tparts),
+		coqfmt.Header(origin), coqfmt.StrList(skip))
 }
 
 func reqClose(x xreq) bool {
@@ -1104,11 +1205,24 @@ func renderE2E(c ecaseJ, res connResult, snaps []snapshot, sawAE []string, relax
 		}
 		q := fmt.Sprintf("(mkReq %s %d %d %s)", coqfmt.Str(x.Req.Method), maj, min, coqfmt.Bool(reqClose(x.Req)))
 		parts = append(parts, fmt.Sprintf("{| e_closing := %s; e_req := %s; e_snap := %s; e_order := %s; e_exp := %s |}", coqfmt.Bool(c.Shutdown > 0), q, coqResp(rj),
-			coqfmt.StrList(order), expected(x, strings.Contains(sawAE[i], "gzip"), relax304, c.Handler)))
+			coqfmt.StrList(order), expected(x, strings.Contains(sawAE[i], "gzip"), relax304, c.Handler, len(c.RespRules) > 0)))
+	}
+	var rparts []string
+	for _, rs := range c.RespRules {
+		h, err := header.ParseHeader(rs)
+		if err != nil {
+			panic(err)
+		}
+		act := map[header.Action]int{header.Remove: 0, header.RemoveByPrefix: 1, header.Empty: 2, header.Add: 3, header.RenameCase: 4}[h.Action]
+		val := ""
+		if h.Value != nil {
+			val = *h.Value
+		}
+		rparts = append(rparts, fmt.Sprintf("(mkrule %d %s %s)", act, coqfmt.Str(h.Name), coqfmt.Str(val)))
 	}
 	v11 := c.Exchs[0].Req.Proto == "HTTP/1.1"
 	broken := res.Done < len(c.Exchs) && c.Exchs[res.Done].Resp.Break != ""
-	return fmt.Sprintf("{| e_v11 := %s; e_want := %d; e_exchs := %s; e_stream := %s; e_closed := %s; e_broken := %s; e_must_complete := %s |}", coqfmt.Bool(v11), len(c.Exchs),
+	return fmt.Sprintf("{| e_rules := "+coqfmt.List("G16.Model.rule", rparts)+"; e_v11 := %s; e_want := %d; e_exchs := %s; e_stream := %s; e_closed := %s; e_broken := %s; e_must_complete := %s |}", coqfmt.Bool(v11), len(c.Exchs),
 		coqfmt.List("exch", parts), cstr(string(res.Stream)), coqfmt.Bool(res.Closed), coqfmt.Bool(broken), coqfmt.Bool(c.MustComplete))
 }
 
@@ -1128,12 +1242,14 @@ func runCases(cases []ecaseJ, wait time.Duration) (rendered []string, outs []any
 	relaxedRendered = make([]string, len(cases))
 	org := newOrigin()
 	defer org.l.Close()
-	type rigKey struct{ handler, attach bool }
-	rigs := map[rigKey]*proxyRig{}
+	optsOf := func(c ecaseJ) rigOpts {
+		return rigOpts{Handler: c.Handler, Attach: c.AttachRT, LogBody: c.LogBody, Rules: strings.Join(c.RespRules, "\x00")}
+	}
+	rigs := map[rigOpts]*proxyRig{}
 	for _, c := range cases {
-		k := rigKey{c.Handler, c.AttachRT}
+		k := optsOf(c)
 		if rigs[k] == nil {
-			rigs[k] = newProxyRig(c.Handler, c.AttachRT)
+			rigs[k] = newProxyRigOpts(k)
 			defer rigs[k].stop()
 		}
 	}
@@ -1164,7 +1280,7 @@ func runCases(cases []ecaseJ, wait time.Duration) (rendered []string, outs []any
 			// a connection on which a response never completed is tried once more: a response that really
 			// lacks its end does so again, a stall caused by a loaded machine does not
 			for attempt := 0; attempt < 3; attempt++ {
-				rig = rigs[rigKey{c.Handler, c.AttachRT}]
+				rig = rigs[optsOf(c)]
 				if attempt > 0 {
 					for i := range paths {
 						paths[i] += "r"
@@ -1265,6 +1381,34 @@ func runE2E(r *rng.R, thorough bool, ss *shardSet, m *meta, out string) {
 	for i := 0; i < n; i++ {
 		cases = append(cases, genCase(r))
 	}
+	// body logging (--log-http body): many connections at the same time, every reply with a body of its own
+	nlog := 16
+	if thorough {
+		nlog = 64
+	}
+	for i := 0; i < nlog; i++ {
+		c := ecaseJ{Class: "body-logging:concurrent-distinct-bodies", LogBody: true, MustComplete: true}
+		for j := 0; j < 3; j++ {
+			body := fmt.Sprintf("<%d.%d>", i, j) + strings.Repeat(string(rune('A'+(i*3+j)%26)), 6000+997*((i+j)%9)) + fmt.Sprintf("</%d.%d>", i, j)
+			o := oresp{Proto: "HTTP/1.1", Code: 200, Reason: "OK", Fields: []hfield{{"X-Conn", fmt.Sprint(i)}}, Framing: "cl", Body: body, HeadCL: -1, KeepOpen: true}
+			if (i+j)%3 == 1 {
+				o.Framing, o.Chunks = "chunked", []int{len(body) / 2, len(body) - len(body)/2}
+			}
+			x := get("HTTP/1.1")
+			if j == 1 {
+				x = xreq{Method: "POST", Proto: "HTTP/1.1", Body: strings.Repeat(string(rune('a'+i%26)), 500)}
+			}
+			c.Exchs = append(c.Exchs, exchJ{x, o})
+		}
+		cases = append(cases, c)
+	}
+	// some generated connections through a proxy with response-header rules
+	rulePool := [][]string{{"%x-a", "-x-a*"}, {"X-Added: v", "-Etag"}, {"Cache-Control;", "%set-cookie"}, {"-x-*"}}
+	for i := range cases {
+		if cases[i].Class == "generated" && i%5 == 0 {
+			cases[i].RespRules = rulePool[(i/5)%len(rulePool)]
+		}
+	}
 	rendered, outs, stats := runCases(cases, 2500*time.Millisecond)
 	m.Counts["ecases"] = len(rendered)
 	m.E2E["stats"] = stats
@@ -1300,9 +1444,19 @@ func runE2E(r *rng.R, thorough bool, ss *shardSet, m *meta, out string) {
 	writeJSONL(out, "ecases.jsonl", outs)
 	m.Samples["ecase"] = outs[len(outs)-1]
 	runTimingPart(thorough, ss, m, out)
+	runBodyLoggingPart(thorough, ss, m, out)
 }
 
 func replayE2E(kind string, raw json.RawMessage, ss *shardSet, m *meta) {
+	if kind == "lcases" {
+		var c lcaseJ
+		json.Unmarshal(raw, &c)
+		rendered, outs := runBodyLogging(c.Handler, c.Size)
+		m.Counts["lcases"] = len(rendered)
+		ss.write("lcases", "lcase", "(fun _ : lcase => true)", "lcase_prop_ok", rendered)
+		writeJSONL(ss.dir, "lcases.jsonl", outs)
+		return
+	}
 	if kind == "tcases" {
 		var sc tscen
 		if err := json.Unmarshal(raw, &sc); err != nil {
@@ -1604,4 +1758,116 @@ func runTimingPart(thorough bool, ss *shardSet, m *meta, out string) {
 	ss.write("tcases", "tcase", "(fun _ : tcase => true)", "tcase_prop_ok", rendered)
 	writeJSONL(out, "tcases.jsonl", outs)
 	m.Samples["tcase"] = outs[0]
+}
+
+
+// ---------------------------------------------------------------- body logging with a slow reader (lcases)
+type lcaseJ struct {
+	Class   string `json:"Class"`
+	Handler bool
+	Conn    string // which client connection of the scenario this is
+	Size    int
+	Fill    string
+}
+
+func rle(b []byte) string {
+	var parts []string
+	for i := 0; i < len(b); {
+		j := i
+		for j < len(b) && b[j] == b[i] {
+			j++
+		}
+		parts = append(parts, fmt.Sprintf("(%d, %d)", b[i], j-i))
+		i = j
+		if len(parts) > 4000 { // hopelessly mixed: the rest as one marker run that cannot match
+			parts = append(parts, "(256, 1)")
+			break
+		}
+	}
+	return coqfmt.List("(N * N)", parts)
+}
+
+// runBodyLogging: client A requests a large body and reads only its head; client B then fetches bodies of
+// the same size but other content on another connection; A reads the rest. One P (GOMAXPROCS 1) while the
+// scenario runs, so that the exchanges share the scheduler-local caches of the runtime.
+func runBodyLogging(handler bool, size int) (rendered []string, outs []any) {
+	defer runtime.GOMAXPROCS(runtime.GOMAXPROCS(1))
+	org := newOrigin()
+	defer org.l.Close()
+	rig := newProxyRigOpts(rigOpts{Handler: handler, LogBody: true})
+	defer rig.stop()
+	origin := org.l.Addr().String()
+	mk := func(path string, fill byte) {
+		org.mu.Lock()
+		org.scripts[path] = &oresp{Proto: "HTTP/1.1", Code: 200, Reason: "OK", Framing: "cl", Body: strings.Repeat(string(fill), size), HeadCL: -1, KeepOpen: true}
+		org.mu.Unlock()
+	}
+	mk("/l/a", 'A')
+	for i := 0; i < 3; i++ {
+		mk(fmt.Sprintf("/l/b%d", i), 'B')
+	}
+	fetch := func(conn net.Conn, path string, pause func()) []byte {
+		conn.Write(renderReq(get("HTTP/1.1"), origin, path))
+		var stream []byte
+		buf := make([]byte, 64*1024)
+		paused := pause == nil
+		conn.SetReadDeadline(time.Now().Add(20 * time.Second))
+		for {
+			n, err := conn.Read(buf[:4096])
+			stream = append(stream, buf[:n]...)
+			if p, used, perr := parseResp(true, "GET", stream, false); perr == nil {
+				_ = used
+				return p.Body
+			}
+			if err != nil {
+				i := bytes.Index(stream, []byte("\r\n\r\n"))
+				if i < 0 {
+					return nil
+				}
+				return stream[i+4:]
+			}
+			if !paused && bytes.Contains(stream, []byte("\r\n\r\n")) {
+				paused = true
+				pause()
+			}
+		}
+	}
+	ca, err := net.Dial("tcp", rig.addr)
+	if err != nil {
+		panic(err)
+	}
+	defer ca.Close()
+	var bodiesB [][]byte
+	bodyA := fetch(ca, "/l/a", func() {
+		time.Sleep(300 * time.Millisecond) // the proxy fills the socket buffers and blocks in the middle of A's body
+		cb, err := net.Dial("tcp", rig.addr)
+		if err != nil {
+			panic(err)
+		}
+		defer cb.Close()
+		for i := 0; i < 3; i++ {
+			bodiesB = append(bodiesB, fetch(cb, fmt.Sprintf("/l/b%d", i), nil))
+		}
+	})
+	add := func(conn string, fill byte, got []byte) {
+		rendered = append(rendered, fmt.Sprintf("{| l_want := [(%d, %d)]; l_got := %s |}", fill, size, rle(got)))
+		outs = append(outs, lcaseJ{Class: "body-logging:slow-reader-and-concurrent-exchanges", Handler: handler, Conn: conn, Size: size, Fill: string(fill)})
+		note(fmt.Sprint("l", handler, conn), true)
+	}
+	add("A", 'A', bodyA)
+	for i, bb := range bodiesB {
+		add(fmt.Sprintf("B%d", i), 'B', bb)
+	}
+	return
+}
+
+func runBodyLoggingPart(thorough bool, ss *shardSet, m *meta, out string) {
+	size := 12 << 20
+	r1, o1 := runBodyLogging(false, size)
+	r2, o2 := runBodyLogging(true, size)
+	rendered, outs := append(r1, r2...), append(o1, o2...)
+	m.Counts["lcases"] = len(rendered)
+	ss.write("lcases", "lcase", "(fun _ : lcase => true)", "lcase_prop_ok", rendered)
+	writeJSONL(out, "lcases.jsonl", outs)
+	m.Samples["lcase"] = outs[0]
 }
